@@ -20,6 +20,12 @@ fields of that packet.  A strobe that belongs to no accepted ITP, a consumed hea
 taken within 8 cycles are violations with their own mechanism names.  Classifier for the known defect: the mechanism
 `*_truncated_to_lsb` is used only if the output port is one bit wide and shows bit 0 of the field; everything else is `*_wrong`.
 
+Deviation from DESIGN.md section 7: "other types untouched" is checked as "no update strobe and not consumed"; that the
+outputs hold their value between packets is not demanded (see below).
+Mutation results (quick tier): caught delta from DW0[18:31], counter from DW0[6:20] / DW0[5:18] / DW1, 13-bit counter and
+12-bit delta ports (on the repaired tree), type compare ignoring low or top bits, missing valid gate, sticky strobe, no
+strobe; not flagged because every ITP is still decoded: accepting the second of two back-to-back ITPs one cycle later.
+
 Not judged: the outputs in cycles without `update_received` (the docstring of the block says it "keeps time", a correct
 implementation may advance the counter on its own between packets); `ready` while `valid` is low.
 """
